@@ -209,7 +209,7 @@ def compare(job, r, mline):
 
 
 def run_gen_slice(ctx, n_cfg=None, variants=VARIANTS, policies=True, label="generator",
-                  shapes=("huge_methods", "deep")):
+                  shapes=("huge_methods", "deep"), pic_heavy=False):
     rng = random.Random(ctx.seed * 7368787 + 31)
     big = (not ctx.quick()) or ctx.deep
     n = n_cfg or (120 if big else 8)
@@ -218,6 +218,9 @@ def run_gen_slice(ctx, n_cfg=None, variants=VARIANTS, policies=True, label="gene
     for v in variants:
         for k in range(n):
             cfg = sample_cfg(rng, v, small=(not big) or k % 4 != 0)
+            if pic_heavy:        # PICs whose ZTP draw exceeds the methods still to create, and the ratio extremes
+                cfg["pics_ratio"] = [1.0, 0.9, 0.0, 0.7, 1.0, 0.5][k % 6]
+                cfg["pics_mean_case_nb"] = rng.choice([3, 5, 8, 12])
             jobs.append({"variant": v, "cfg": cfg, "seed": rng.getrandbits(64)})
         for shape in shapes:
             for _ in range(3 if big else 1):
